@@ -127,6 +127,23 @@ func (e *NilEnv) at(v ssa.Value, b *ssa.BasicBlock, depth int) Nilness {
 				}
 			}
 		}
+	case *ssa.Extract:
+		// n, err := io.ReadFull(r, buf) under a dominating `n < len(buf)` (or n != len(buf)): by ReadFull's contract
+		// the error is nil exactly when the count is the buffer's length
+		if c, ok := x.Tuple.(*ssa.Call); ok && x.Index == 1 && b != nil && isStdCall(c, "io", "", "ReadFull") {
+			for _, g := range guardsOf(b) {
+				op, l, rgt, okc := cmpFact(g)
+				if !okc {
+					continue
+				}
+				if ex, isEx := stripIntConv(l).(*ssa.Extract); isEx && ex.Tuple == x.Tuple && ex.Index == 0 && isLenOf(rgt, c.Call.Args[1]) && (op == token.LSS || op == token.NEQ) {
+					return NonNil
+				}
+				if ex, isEx := stripIntConv(rgt).(*ssa.Extract); isEx && ex.Tuple == x.Tuple && ex.Index == 0 && isLenOf(l, c.Call.Args[1]) && (op == token.GTR || op == token.NEQ) {
+					return NonNil
+				}
+			}
+		}
 	case *ssa.ChangeInterface:
 		return e.at(x.X, b, depth+1)
 	case *ssa.ChangeType:
